@@ -497,6 +497,76 @@ theorem v12_create_no_auth {e : PDU} (hf : e.fmt = .v3) (hc : isCreate e = true)
   unfold authEventIDs
   simp only [hf, hc, if_true]
 
+/-! ### The events `Sign`, `SetUnsigned` and `SetUnsignedField` return are the same event
+
+`Sign()` and `SetUnsigned()` return a copy, `SetUnsignedField()` edits in place; in every room version the result is an
+event of the SAME struct (eventV3 overrides `Sign` and `SetUnsigned` since /repo e2681f5 — before it the result for a
+version-12 event was an `*eventV2`: `RoomID()` of a create event panicked, `AuthEventIDs()` of any other event lost the
+create event; `event.derived` is the correspondence op) with the same decoded fields, so the two version-12 clauses
+above — and every accessor C03 lists — carry over to it. -/
+
+/-- the struct, version, redaction flag and every decoded field but `unsigned` -/
+def SameDerived (e' e : PDU) : Prop :=
+  e'.fmt = e.fmt ∧ e'.ver = e.ver ∧ e'.redacted = e.redacted ∧ ∃ u, e'.f = { e.f with unsigned := u }
+
+theorem signWith_same {e e' : PDU} {name kid sig : Bytes} (h : signWith e name kid sig = .ok e') : SameDerived e' e := by
+  unfold signWith at h
+  split at h
+  · cases h
+  · split at h
+    · split at h <;> cases h
+    · cases h
+    · split at h
+      · cases h
+      · simp only at h
+        split at h
+        · cases h
+        · cases h
+        · cases h; exact ⟨rfl, rfl, rfl, e.f.unsigned, rfl⟩
+
+theorem setUnsigned_same {e e' : PDU} {u : JVal} (h : setUnsigned e u = .ok e') : SameDerived e' e := by
+  unfold setUnsigned at h
+  split at h
+  · cases h
+  · simp only at h
+    split at h
+    · cases h
+    · cases h
+    · cases h; exact ⟨rfl, rfl, rfl, some u, rfl⟩
+
+theorem setUnsignedField_same {e e' : PDU} {k : Bytes} {v : JVal} (h : setUnsignedField e k v = .ok e') : SameDerived e' e := by
+  unfold setUnsignedField at h
+  simp only at h
+  split at h
+  · cases h
+  · cases h; exact ⟨rfl, rfl, rfl, _, rfl⟩
+
+/-- **Every accessor C03 lists reports on the derived event what it reports on the original**: type, sender, state key,
+    content, depth, timestamp, prev / auth references (in version 12: the create event first) and — for an event with a
+    stored ID, i.e. anything a constructor other than `…WithEventID("")` returned — the event ID and the room ID (in
+    version 12: of a create event, its own event ID with the sigil swapped). -/
+theorem derived_same_accessors (H : Bytes → Bytes) {e' e : PDU} (h : SameDerived e' e)
+    (hid : e.fmt = .v1 ∨ e.f.eventIDRaw ≠ []) :
+    e'.f.type = e.f.type ∧ e'.f.sender = e.f.sender ∧ e'.f.stateKey = e.f.stateKey ∧ e'.f.content = e.f.content ∧
+    e'.f.depth = e.f.depth ∧ e'.f.originServerTS = e.f.originServerTS ∧ prevEventIDs e' = prevEventIDs e ∧
+    authEventIDs e' = authEventIDs e ∧ eventID H e' = eventID H e ∧ roomID H e' = roomID H e := by
+  obtain ⟨hf, _, _, u, hu⟩ := h
+  have hc : isCreate e' = isCreate e := by simp only [isCreate, isCreateF, hu]
+  have he : eventID H e' = eventID H e := by
+    unfold eventID
+    have hraw : e'.f.eventIDRaw = e.f.eventIDRaw := by rw [hu]
+    have hcond : (e.fmt == .v1 || !e.f.eventIDRaw.isEmpty) = true := by
+      rcases hid with h1 | h1
+      · simp [h1]
+      · cases hr : e.f.eventIDRaw with
+        | nil => exact absurd hr h1
+        | cons c r => simp
+    rw [hf, hraw, if_pos hcond, if_pos hcond]
+  refine ⟨by rw [hu], by rw [hu], by rw [hu], by rw [hu], by rw [hu], by rw [hu], ?_, ?_, he, ?_⟩
+  · simp only [prevEventIDs, hf, hu]
+  · simp only [authEventIDs, hf, hc, hu]
+  · simp only [roomID, hf, hc, he, hu]
+
 /-! ## Round trip through the constructors -/
 
 theorem members_deleteFirst_other (n k : Bytes) (kvs : EventParse.Obj) (h : matchesField k n = false) :
@@ -555,7 +625,7 @@ theorem decode_stripped_core (fmt : Fmt) (kvs : EventParse.Obj) :
 theorem parseTrusted_ok {H : Bytes → Bytes} {ver text : Bytes} {red : Bool} {e : PDU} (h : parseTrusted H ver red text = .ok e) :
     ∃ row p fmt kvs e0, rowOf ver = some row ∧ parse text = some p ∧ fmtOfName row.newEventFromTrustedJSONFunc = some fmt ∧
       p.toJVal = .obj kvs ∧ construct fmt ver red text (.obj kvs) = .ok e0 ∧ SameButID e0 e ∧
-      (e0.fmt ≠ .v1 → e0.f.eventIDRaw = [] → referenceID H row ver (.obj kvs) = .ok e.f.eventIDRaw) := by
+      (e0.fmt ≠ .v1 → referenceID H row ver (.obj kvs) = .ok e.f.eventIDRaw) := by
   unfold parseTrusted at h
   split at h
   · cases h
@@ -566,8 +636,8 @@ theorem parseTrusted_ok {H : Bytes → Bytes} {ver text : Bytes} {red : Bool} {e
       obtain ⟨fmt, e0, hf, hc, hs, hid⟩ := trustedCore_ok h
       obtain ⟨kvs, hj, g1, g2, g3, g4, g5, g6⟩ := construct_ok hc
       refine ⟨row, p, fmt, kvs, e0, hrow, hp, hf, hj, by rw [← hj]; exact hc, hs, ?_⟩
-      intro hne hraw
-      have := hid hne hraw
+      intro hne
+      have := hid hne
       rw [g1, g5] at this
       exact this
 
@@ -618,9 +688,7 @@ theorem reparse_same_partial {H : Bytes → Bytes} {ver text : Bytes} {e e' : PD
     have hfe : e.fmt = fmt' := by rw [hs]; exact g2
     rw [hfe] at hne
     rw [hobj] at hnoid
-    have hraw0 : e0.f.eventIDRaw = [] := by
-      rw [g6]; simp only [decodeFields, hnoid, seqString, List.foldl_nil]
-    have hidt := hid (by rw [g2]; exact hne) hraw0
+    have hidt := hid (by rw [g2]; exact hne)
     obtain ⟨row2, hrow2, hidu⟩ := hA.hid (by rw [hef]; exact hne)
     have : row2 = row' := by rw [hrow] at hrow2; exact (Option.some.inj hrow2).symm
     subst this
@@ -873,7 +941,7 @@ theorem build_roundtrip {H : Bytes → Bytes} {ver : Bytes} {pe : EventBuild.Pro
     rw [← htext]; exact encodeCanon_sublist_length (deleteKeys_sublist _ _)
   -- the event ID of the later formats; the redaction does not see the receiver's stripping
   have hidS : fmt ≠ .v1 → referenceID H row ver (.obj (canonMembers signed)) = .ok id := fun hne =>
-    hidl hne (eventIDRaw_nil fmt (members_event_id_nil hSk (hevS hne)))
+    hidl hne
   have hrefK : ∀ row', referenceID H row' ver (.obj (deleteKeys (stripKeys fmt) (canonMembers signed))) =
       referenceID H row' ver (.obj (canonMembers signed)) := by
     intro row'; simp only [referenceID, hK, redactJSON_strip4]
@@ -894,7 +962,7 @@ theorem build_roundtrip {H : Bytes → Bytes} {ver : Bytes} {pe : EventBuild.Pro
     checkFields_congr (e := ⟨ver, fmt, false, encodeCanon (.obj signed), canonMembers signed, _⟩) rfl rfl hcore hlen hcf
   refine ⟨⟨received ver fmt (deleteKeys (stripKeys fmt) (canonMembers signed)) id, ?_, ?_⟩, ?_, ?_, rfl, hcf⟩
   · -- (a) untrusted
-    refine parseUntrusted_intro hrow hfmtU henf' hp hpj (hasUnderscoreKey_false hSk) ?_ hSd ?_ ?_ ?_ ?_ ?_ ?_ ?_ ?_ hcf'
+    refine parseUntrusted_intro hrow hfmtU henf' hp hpj (hasUnderscoreKey_false hSk) ?_ hSd (hasFieldVariant_false hSk) ?_ ?_ ?_ ?_ ?_ ?_ ?_ ?_ hcf'
     · -- the enforced number check passed in `Build`
       unfold enforcedOkVal at henf
       rw [henf'] at henf
@@ -999,13 +1067,13 @@ example : (match parseUntrusted C04.H0 b!"10" (C04.exText "") with
              isOk (redact e) && isOk (eventID C04.H0 e) && isOk (parseTrusted C04.H0 b!"10" false (C04.exText ""))
   | _ => false) = true := by decide +kernel
 
-/-- `eventID_redact_invariant` on an event that carries a case variant `Event_id` (and no `event_id`): the
-    sender-made event of C04 — accepted, redactable, and its ID is the same after `Redact()` -/
-example : (match parseUntrusted C04.H1 b!"10" (C04.exEv true "x" "lw") with
+/-- `eventID_redact_invariant` on a received event (no `event_id` member: the receiver stripped it): accepted,
+    redactable, and its ID is the same after `Redact()` -/
+example : (match parseUntrusted C04.H1 b!"10" (C04.exEv "\"event_id\":\"$x\"," "x" "hw") with
   | .ok e => (match redact e, eventID C04.H1 e with
     | .ok e', .ok id => !e.redacted && e'.redacted && (match eventID C04.H1 e' with
       | .ok id' => id' == id && !id.isEmpty
-      | _ => false) && (lookupExact e.obj b!"event_id").isNone && (lookupExact e.obj b!"Event_id").isSome
+      | _ => false) && (lookupExact e.obj b!"event_id").isNone
     | _, _ => false)
   | _ => false) = true := by decide +kernel
 
